@@ -102,7 +102,11 @@ func (g mapReprMapReprGenerator) EmitNodeMethodMapIterator(w io.Writer) {
 
 		func (itr *_{{ .Type | TypeSymbol }}__ReprMapItr) Next() (k datamodel.Node, v datamodel.Node, err error) {
 			k, v, err = (*_{{ .Type | TypeSymbol }}__MapItr)(itr).Next()
-			if err != nil || v == datamodel.Null {
+			if err != nil {
+				return
+			}
+			k = k.({{ .Type.KeyType | TypeSymbol }}).Representation()
+			if v == datamodel.Null {
 				return
 			}
 			return k, v.({{ .Type.ValueType | TypeSymbol}}).Representation(), nil
